@@ -1,7 +1,7 @@
 from __future__ import annotations
 
 import sys
-from asyncio import create_task
+from asyncio import CancelledError, create_task, current_task
 from contextvars import ContextVar
 from functools import partial, update_wrapper
 from inspect import signature
@@ -86,11 +86,24 @@ class _middleware_wrapper(Generic[FnP, FnR]):  # noqa: N801
 
         # run function inside of a separate context created by `asyncio.create_task()`
         # inside of this context IsInsideMiddleware variable will be set to True
-        result = await create_task(self.call_set_context(*args, **kwargs))
+        task = create_task(self.call_set_context(*args, **kwargs))
+        cancelled_after_completion = False
+        try:
+            result = await task
+        except CancelledError:
+            if not task.done() or task.cancelled() or task.exception() is not None:
+                raise
+            # the wrapped function has already completed: don't drop its result (e.g. a message
+            # which was just consumed), the cancellation is re-raised at the caller's next await
+            result = task.result()
+            cancelled_after_completion = True
         # whatever the function returns can be seen as `result` kwarg in `after` signal
         signal_kwargs.update({"result": result})
 
         # emit `after` signal
         await self._repid_signal_emitter(f"after_{self.name}", signal_kwargs)
+
+        if cancelled_after_completion and (this_task := current_task()) is not None:
+            this_task.cancel()
 
         return result
